@@ -78,6 +78,8 @@ fn main() {
             "C07" => checks::c07::replay(&case),
             "C11" => checks::c11::replay(&case),
             "C12" => checks::c12::replay(&case),
+            "C13" => checks::c13::replay(&case),
+            "C14" => checks::c14::replay(&case),
             "C15" => checks::c15::replay(&case),
             _ => {
                 eprintln!("no replay for {}", id);
@@ -102,6 +104,8 @@ fn main() {
         "C07" => checks::c07::run(&mut ctx),
         "C11" => checks::c11::run(&mut ctx),
         "C12" => checks::c12::run(&mut ctx),
+        "C13" => checks::c13::run(&mut ctx),
+        "C14" => checks::c14::run(&mut ctx),
         "C15" => checks::c15::run(&mut ctx),
         _ => {
             eprintln!("unknown property {}", id);
